@@ -190,7 +190,7 @@ PROPS = {
     "C07": dict(suites=["PARSE-NS", "PARSE-SUB", "PARSE-PATH", "PARSE-SEP", "SPELL", "FAULT"], drivers=["garbage", "corpus"]),
     "C08": dict(suites=["TYPES-NAMES", "PARSE-TYPED", "BUILDER-T", "TYPES-COMB"], drivers=["scalars"]),
     "C09": dict(suites=BUILD_ALL + ["FORMAT-1", "FORMAT-2", "SYSTEM-G", "SYSTEM-T", "TYPES-NAMES", "TYPES-STR"], drivers=["builder-ops", "lengths"]),
-    "C10": dict(suites=PARSE_ALL + ["BUILDER-G", "BUILDER-T", "FORMAT-1", "TYPES-NAMES", "CHECKSUM", "SYSTEM-G", "SYSTEM-T"], drivers=["scalars", "corpus", "lengths"]),
+    "C10": dict(suites=PARSE_ALL + ["BUILDER-G", "BUILDER-T", "FORMAT-1", "TYPES-NAMES", "TYPES-STR", "CHECKSUM", "SYSTEM-G", "SYSTEM-T"], drivers=["scalars", "corpus", "lengths"]),
     "C11": dict(suites=["QUAL", "QUAL-SIM"], drivers=["qual-ops"]),
     "C12": dict(suites=["CHECKSUM", "BUILDER-G", "QUAL", "PARSE-QUAL", "SPELL"], drivers=["checksum-ops", "corpus"]),
     "C13": dict(suites=["TYPES-STR", "PARSE-SEP", "PARSE-PATH", "SPELL", "BUILDER-G", "BUILDER-SIM-G", "FORMAT-1"], drivers=["garbage", "corpus", "builder-ops"]),
